@@ -65,6 +65,12 @@ func (p *Parser) nextToken() error {
 	}
 
 	token, err := p.lexer.NextToken()
+	// A comment may stand between any two tokens (ISO 32000-1 7.2.3) and is white
+	// space to the syntax: it never becomes a lookahead token, so "1 %c\n 0 R" is
+	// still seen as integer, integer, R.
+	for err == nil && token != nil && token.Type == TokenComment {
+		token, err = p.lexer.NextToken()
+	}
 	if err != nil {
 		// Input that cannot be tokenized ends the token stream: callers that only
 		// look at the tokens then see EOF instead of the previous token again
